@@ -102,7 +102,8 @@ type restartCtx struct {
 	// torn: the instance is parked at the "aof.flush" point, i.e. inside flushAOF right before its
 	// buffer goes to write(2); the crash lands inside that write: a drawn proper prefix of the
 	// buffer reaches the file (none of its commands has been acknowledged)
-	torn bool
+	torn         bool
+	shortWritten bool // the crash follows a failed (short) write of the log buffer on a full disk
 }
 
 // stopAndRestart stops the node (cleanly or by crash), verifies the surviving
@@ -123,6 +124,11 @@ func (rc *restartCtx) stopAndRestart(clean bool) bool {
 		}
 		hc.lm.poll()
 		stream = inst.aofStream()
+	} else if rc.shortWritten {
+		// the write that failed on a full disk left a prefix of the buffer behind by itself
+		rc.shortWritten = false
+		rc.torn = true
+		n.crash()
 	} else if rc.torn && inst.atPoint == "aof.flush" && len(inst.srv.aofbuf) > 1 {
 		buf := append([]byte(nil), inst.srv.aofbuf...)
 		n.crash()
@@ -353,7 +359,8 @@ func runC03(w *World) {
 	})
 	w.weights[akFault] = []int{1, 2, 5}[w.knob("wfault", 3)]
 	// one run in three aims its first crash inside one particular write of the log buffer
-	if w.knob("tornflush", 3) == 1 && !withShrink {
+	tornKind := w.knob("tornflush", 3)
+	if tornKind == 1 && !withShrink {
 		n.inst.parkAtFlush = 1 + w.knob("tornat", 24)
 		first := n.inst
 		tornArmed = true
@@ -362,6 +369,22 @@ func runC03(w *World) {
 				crashPending = true
 				rc.torn = true
 				tornArmed = false
+			}
+		})
+	}
+	// another third lets the disk fill up at one particular write of the log buffer: part of the
+	// buffer may still fit, the write fails with ENOSPC, tile38 ends the process - a crash
+	if tornKind == 2 && !withShrink {
+		n.inst.diskFullAt = 1 + w.knob("tornat", 24)
+		n.inst.diskFullKeep = w.knob("fullkeep", 5)
+		first := n.inst
+		tornArmed = true
+		w.stepHooks = append(w.stepHooks, func() {
+			if n.inst == first && !first.dead && first.atPoint == panicPoint && !crashPending {
+				crashPending = true
+				tornArmed = false
+				rc.shortWritten = true
+				w.stat("probe.crash_by_full_disk", 1)
 			}
 		})
 	}
@@ -383,6 +406,16 @@ func runC03(w *World) {
 			break
 		}
 		tornArmed = false // the aimed write never happened: ordinary crashes from here on
+	}
+	// the disk fills up only while the crash rounds run: afterwards the fault is disarmed, and a
+	// process that already died of it is restarted first
+	if n.inst.diskFullAt > 0 && !n.inst.diskFull {
+		n.inst.diskFullAt = 0
+	}
+	if !w.failed() && (crashPending || n.inst.atPoint == panicPoint) {
+		crashPending = false
+		rc.shortWritten = n.inst.atPoint == panicPoint
+		rc.stopAndRestart(false)
 	}
 	if !w.failed() && !allDone() {
 		w.Drain(30*time.Second, allDone)
